@@ -43,3 +43,67 @@ func c05HandshakeScenarios(c *gen.Ctx) []any {
 	}
 	return ins
 }
+
+// C05, op "shared": 2-3 batches of the real runTestCasesForServer side by side on ONE real client
+// runner (the way run() lets --max-servers batches share the client under test), with a client that
+// holds back its reading until every batch has a sender inside sendRequest and whose output then
+// ends in one of the ways a client's output can end — while it goes on taking its input or not.
+// See verif_export_c05shared.go.
+
+func init() {
+	gen.RegisterOp("c05", "shared", func(_ *gen.Ctx, raw json.RawMessage) any {
+		return cc.VerifC05Shared(gen.Into[cc.VerifC05SharedSpec](raw))
+	})
+}
+
+func c05SharedScenarios(c *gen.Ctx) []any {
+	r := c.R
+	var ins []any
+	add := func(s cc.VerifC05SharedSpec) {
+		s.TimeoutS = 8
+		ins = append(ins, s)
+		c.E.Count("shared:" + s.Fail + ":" + s.Then)
+	}
+	splits := [][]int{{2, 2}, {1, 3}, {2, 1, 2}, {3, 3}, {1, 1, 1}}
+	// the output ends (not by an exit) while one sender is in the pipe write and the others wait for
+	// sendMu, and the client goes on reading for a while: every way the output can end x the client
+	// having served 0..2 requests before
+	for _, fail := range []string{"unknown", "dup", "over", "garbage"} {
+		for _, after := range []int{0, 1, 2} {
+			if fail == "dup" && after == 0 {
+				continue
+			}
+			if !c.Thorough() && after == 2 && fail != "dup" {
+				continue
+			}
+			add(cc.VerifC05SharedSpec{Batches: gen.Pick(r, splits), After: after, Stall: true, Fail: fail, Then: "drain", DrainDelayMs: gen.Pick(r, []int{5, 20, 50})})
+		}
+	}
+	// the same ends with a client that returns once it is aborted, and clients that just exit
+	for _, fail := range []string{"unknown", "garbage", "exit0", "exit1"} {
+		add(cc.VerifC05SharedSpec{Batches: gen.Pick(r, splits), After: r.Range(0, 1), Stall: true, Fail: fail, Then: "return"})
+	}
+	// no failure at all: the client holds back, then serves everything (every permutation handed out
+	// exactly once, answered, all batches pass)
+	add(cc.VerifC05SharedSpec{Batches: []int{2, 3}, After: 1, Stall: true, Fail: "none", Then: "drain"})
+	add(cc.VerifC05SharedSpec{Batches: gen.Pick(r, splits), After: 0, Stall: false, Fail: "none", Then: "drain"})
+	n := 6
+	if c.Thorough() {
+		n = 120
+	}
+	for i := 0; i < n; i++ {
+		b := gen.Pick(r, splits)
+		total := 0
+		for _, x := range b {
+			total += x
+		}
+		s := cc.VerifC05SharedSpec{Batches: b, After: r.Range(0, total-1), Stall: r.Chance(3, 4),
+			Fail: gen.Pick(r, []string{"unknown", "dup", "over", "garbage", "exit0", "exit1", "none"}), Then: gen.Pick(r, []string{"drain", "drain", "return"}),
+			DrainDelayMs: gen.Pick(r, []int{0, 0, 5, 30})}
+		if s.Fail == "dup" && s.After == 0 {
+			s.After = 1
+		}
+		add(s)
+	}
+	return ins
+}
